@@ -59,7 +59,11 @@ class HList:
         self.items = list(items)
 
     def copy(self):
-        return HList(self.items)
+        r = HList(self.items)
+        for f in ("is_keys", "unordered"):
+            if getattr(self, f, False):
+                setattr(r, f, True)
+        return r
 
 
 class HDict:
